@@ -191,3 +191,29 @@ def feed (s : State) (bytes : Bytes) : Run :=
   runFuel (fuelFor (s.buf ++ bytes)) s.core (s.buf ++ bytes) []
 
 end Rml.Des
+
+namespace Rml.Des
+open Rml Rml.Chunk
+
+/-- result of one `get_next_message` call -/
+structure Next where
+  core : Core
+  buf : Bytes
+  msg : Option Msg
+  err : Option Err
+deriving Repr
+
+/-- one `get_next_message` call on the buffered bytes: run stages until a message completes, more
+    bytes are needed, or a stage fails (the chunk size is NOT touched here: the caller reacts) -/
+def nextFuel : Nat → Core → Bytes → Next
+  | 0, c, buf => { core := c, buf := buf, msg := none, err := some .fuel }
+  | f + 1, c, buf =>
+    match stageStep c buf with
+    | .needMore => { core := c, buf := buf, msg := none, err := none }
+    | .err e => { core := c, buf := buf, msg := none, err := some e }
+    | .ok c' rest none => nextFuel f c' rest
+    | .ok c' rest (some m) => { core := c', buf := rest, msg := some m, err := none }
+
+def next (s : State) : Next := nextFuel (fuelFor s.buf) s.core s.buf
+
+end Rml.Des
